@@ -4,26 +4,37 @@ package c17
 //
 // A program is a sequence of top-level items (the "skeleton") followed by a
 // final expression; items carry expression holes.  The weight of a program is
-// its node count: every production below costs 1 plus the weight of its
-// sub-terms (an integer literal, a keyword, a quoted symbol and a variable
-// reference are one node each).  The enumerator visits EVERY program of weight
-// <= the bound exactly once, in a fixed order (no Go map is iterated).
+// its node count: every form below costs 1 (its name, parameter list and
+// bracketed binding names included) plus the weight of its sub-terms; an
+// integer literal, a keyword, a quoted symbol and a variable reference are one
+// node each; a defmacro (form + template), a macrolet, a two-binding let/let*
+// and a funcall of (function n) or of a #^ lambda cost 2.  The
+// enumerator visits EVERY program of weight <= the bound exactly once per
+// family, in a fixed order (no Go map is iterated on the way).
+//
+// Rendering rules that cost no weight: the k-th integer literal of a session
+// is the number k (so every binding has its own value), and every function
+// body is wrapped as (list <fresh literal> body), so which function a call
+// reached is visible in the result.
 //
 // Names come from a tiny pool shared by every binder (variables, functions,
 // parameters, globals), so that shadowing, "same name as function and
-// variable", redefinition in another package ... all arise from name
-// collisions.  The scoping discipline of the generator is the evaluator's
-// (lang.md "Scope", "let vs let*", "flet vs labels"): a reference may only
-// name something that is bound at that point (locally, or globally somewhere
-// in the session).  Preconditions of the statement enforced by construction:
+// variable", redefinition, the same name in two packages or two files all
+// arise from name collisions.  The scoping discipline of the generator is the
+// documented one (lang.md "Scope", "let vs let*", "flet vs labels"): a
+// reference may only name something that is bound at that point (locally, or
+// globally somewhere in the session).  Preconditions of the statement
+// enforced by construction:
 //   - no symbol is computed at run time (no intern/gensym/eval, no quoted
 //     symbol in function-designator position; quoted symbols are data only);
 //   - defun/defmacro/set-definitions/export/in-package/use-package occur at top
 //     level only ((set 'g ...) inside a body only assigns a global that a
-//     top-level set defines);
-//   - macro templates are hygienic for the session: a template's binder uses
-//     the reserved name `t`, and a macro whose template mentions a global name
-//     is never called where that name is locally bound.
+//     top-level set defines, and only in sessions without packages);
+//   - macros are hygienic for the session: a template's binder uses the
+//     reserved name `t`, a defmacro whose template mentions a global is never
+//     called where that name is locally bound, a macrolet macro whose template
+//     mentions an enclosing local is never called where that name was rebound;
+//   - a package never defines a name it also imports with use-package.
 
 import (
 	"fmt"
